@@ -71,7 +71,7 @@ def od():
 
 
 def bounds(tier):
-    return {"bfs_depth": 3 if tier == "quick" else 4, "events": len(EVENTS), "preemption_bound": 2 if tier == "quick" else 3}
+    return {"bfs_depth": 3 if tier == "quick" else 5, "events": len(EVENTS), "preemption_bound": 2 if tier == "quick" else 3}
 
 
 # map keys: (side, kind, no) ; producers: master rpdo1/2, device tpdo1/2/3
@@ -277,7 +277,7 @@ def cases(tier, seed):
 
 
 def run_main(tier, seed, jobs, st):
-    depth = 3 if tier == "quick" else 4
+    depth = 3 if tier == "quick" else 5
     res = kernel.bfs_parallel(World, apply, None, lambda w: w.canon(), jobs=jobs, static_events=EVENTS,
                               terminal=lambda w, v: bool(v), max_states=400000, max_depth=depth)
     st.states += res["states"]
@@ -394,7 +394,7 @@ def run_wait(case, st):
         s.run()
         on_exec(s, result())
         return
-    stats = vsched.explore_schedules(harness, P, on_exec=on_exec)
+    stats = vsched.explore_with_crosscheck(st, harness, P, on_exec, case)
     st.states += stats["executions"]
     st.count("schedules", stats["executions"])
     st.count("schedules_with_preemption", stats["with_preemption"])
